@@ -101,13 +101,21 @@ impl RecordField {
         }
 
         let default = field.get("default").cloned();
-        Self::resolve_default_value(
+        if let Err(error) = Self::resolve_default_value(
             &schema,
             name,
             &enclosing_record.fullname(None),
             parser.get_parsed_schemas(),
             &default,
-        )?;
+        ) {
+            parser.defer_default_check(
+                error,
+                &schema,
+                name,
+                enclosing_record.fullname(None),
+                &default,
+            )?;
+        }
 
         let aliases = field
             .get("aliases")
@@ -132,7 +140,7 @@ impl RecordField {
         })
     }
 
-    fn resolve_default_value(
+    pub(crate) fn resolve_default_value(
         field_schema: &Schema,
         field_name: &str,
         record_name: &str,
